@@ -636,7 +636,17 @@ def dispatch_ufunc(ufunc, method, inputs, kwargs):
     if method == "reduce":
         return theory.reduce_(ufunc, to_arr(inputs[0]), kwargs.get("axis", 0))
     if method == "at":
-        raise Unsupported("ufunc.at")
+        # unbuffered in-place accumulation  target[idx] (+)= values : recorded as a ghost event, the target is havocked
+        # (families that depend on the accumulated VALUES are bounded; the event lets a caller's dispatch be verified)
+        target, idx = inputs[0], inputs[1]
+        vals = inputs[2] if len(inputs) > 2 else None
+        c = cur()
+        c.ghost.setdefault("ufunc_at", []).append({"ufunc": name, "target": target, "target_snapshot": target.snapshot() if isinstance(target, SymArr) else None,
+                                                   "idx": idx, "values": vals})
+        if isinstance(target, SymArr):
+            hv = z3.Function(fresh_name("at_result"), *([z3.IntSort()] * target.ndim + [target.snapshot()(*[z3.IntVal(0)] * target.ndim).sort()]))
+            assign_all(target, lambda *i: hv(*i))
+        return None
     raise Unsupported(f"ufunc method {method}")
 
 
